@@ -474,7 +474,8 @@ type Pair struct {
 	V     hs.WV
 	T     hs.Type
 	Class string     // what the generator intended: conforming | convertible | near:<kind> | random
-	Path  []PathElem `json:",omitempty"` // position of the single defect of a near miss
+	Path  []PathElem `json:",omitempty"` // position of the defect of a near miss
+	Sole  bool       `json:",omitempty"` // the defect is the only deviation: without it the value has type T
 }
 
 type pairOpts struct {
@@ -518,10 +519,12 @@ func drawPair(ch chooser, o pairOpts) Pair {
 			return
 		}
 		k := ks[ch.Pick(len(ks), "nearKind")]
+		sole := hs.Conforms(v, t)
 		if nv, path, ok := vg.nearMiss(k, n); ok {
 			v = replaceAt(v, n.Path, nv)
 			p.Class = "near:" + k
 			p.Path = path
+			p.Sole = sole
 		}
 	}
 	// (rapid draws small numbers more often: the common styles come first)
@@ -542,6 +545,7 @@ func drawPair(ch chooser, o pairOpts) Pair {
 			// two deviations: which one a refusal reports is not determined
 			p.Class = "conv+" + p.Class
 			p.Path = nil
+			p.Sole = false
 		}
 	default:
 		t2 := (&typeGen{ch: ch, json: o.json, names: tg.names}).typ(o.depth)
